@@ -3,6 +3,7 @@
 -/
 import SV.TxCache.EvictPost
 import SV.GenProofs.TxThresholds
+import SV.GenProofs.Config
 namespace SV.Props.C06
 open SV SV.TxCache
 
@@ -42,5 +43,15 @@ theorem source_threshold_tests_are_the_models (p : Pool) :
 theorem source_sender_limit_test_is_the_models (cfg : Config) (l : List Tx) :
     senderExceeded cfg l = Gen.senderExceeded cfg.numBytesPerSender cfg.countPerSender (listBytes l) l.length :=
   GenProofs.senderExceeded_eq cfg l
+
+/-- for EVERY configuration accepted by `NewTxCache` (the validity test is translated from `ConfigSourceMe.verify`, the bounds
+    are regenerated constants): per-sender count bound + sortedness are preserved by AddTx, and eviction ends within the
+    thresholds (or with an empty pool) -/
+theorem holds_for_every_accepted_configuration (U : Bytes → Tx) (p : Pool) (t : Tx) (nameLen numChunks : Nat)
+    (hacc : GenProofs.txAccepted p.cfg nameLen numChunks = true) (hi : ListsInv p) (h : Inv U p) (hso : ListsSorted p) :
+    ListsInv (addTx Variant.current p t).1 ∧
+    ((evict Variant.current p).exceeded = false ∨ ((evict Variant.current p).byHash = [] ∧ (evict Variant.current p).lists = [])) := by
+  have hb := GenProofs.txAccepted_bounds p.cfg nameLen numChunks hacc
+  exact ⟨ListsInv.addTx Variant.current p t hi hb.2.2.2.2.2.1, evict_post U p h hso hb.2.2.2.2.2.2.2.2.2⟩
 
 end SV.Props.C06
